@@ -28,14 +28,36 @@ def corpus(tier):
     return out
 
 
+DEAD = []
+
+
+def judge_dead_ends(check):
+    """runs that raised instead of returning are outside C16/C17; the specification still has to explain the error"""
+    if not DEAD:
+        return
+    slim = [{k: r[k] for k in ("K", "start", "want_start", "events", "final_open", "draws", "tree_ok", "dead")} for r in DEAD]
+    verdicts, stats = tlc.validate("SamplerTrace", slim)
+    check.add_tv(stats)
+    for rec, v in zip(DEAD, verdicts):
+        ok = "X_DeadEndExplained" not in v["failed"] and "X_Unreplayable" not in v["failed"]
+        check.count_clause("X_DeadEndExplained", ok)
+        if not ok:
+            check.violation("X_DeadEndExplained", {"key": "dead:%s/%s/%s" % (rec["cfg"], rec["seed"], rec["target"]),
+                                                   "dead": rec["dead"], "events": rec["events"], "cfg": rec["cfg"]}, v)
+    check.extra["dead_ends_explained"] = sum(1 for v in verdicts if "X_DeadEndExplained" not in v["failed"])
+
+
 def observe_all(check, tier):
     lr = sampleobs.install()
     check.extra["rng_interposed"] = lr is not None
     recs, rrecs, dead = [], [], 0
+    DEAD.clear()
     for cfg, seed, target in corpus(tier):
         rec, rrec = sampleobs.observe(cfg, seed, target, lr)
         if rec is None:
             dead += 1
+            if rrec.get("dead_record"):
+                DEAD.append(rrec["dead_record"])
             continue
         recs.append(rec)
         rrecs.append(rrec)
@@ -149,6 +171,7 @@ def run_c17(tier):
     recs, rrecs = observe_all(check, tier)
     verdicts = validate_sampler(check, recs)
     judge_sampler(check, recs, verdicts, C17_ALL)
+    judge_dead_ends(check)
     seed_histories(check, tier)
     return check.finish()
 
